@@ -2,6 +2,7 @@
 cvc5 binary as a second opinion on z3's `unknown`s."""
 import multiprocessing
 import os
+import re
 import subprocess
 import tempfile
 import time
@@ -106,20 +107,70 @@ def _check(args):
     return (name, UNKNOWN, time.time() - t0, last[4], 'z3')
 
 
-def cvc5_check(smt, timeout_s, expect_sat):
-    """second opinion on z3 unknowns.  Only `unsat` answers are used (proofs); cvc5 needs the logic ALL."""
+def _run_cvc5(text, timeout_s):
     with tempfile.NamedTemporaryFile('w', suffix='.smt2', delete=False) as fh:
-        fh.write("(set-logic ALL)\n" + smt)
+        fh.write(text if text.lstrip().startswith('(set-logic') else "(set-logic ALL)\n" + text)
         path = fh.name
     try:
         p = subprocess.run(['/usr/bin/cvc5', '--tlimit=%d' % int(timeout_s * 1000), '--full-saturate-quant', path],
                            capture_output=True, text=True, timeout=timeout_s + 5)
-        out = p.stdout.strip().splitlines()
-        r = out[0] if out else ''
+        out = (p.stdout + p.stderr).strip().splitlines()
+        return out[0] if out else ''
     except Exception:
-        r = ''
+        return ''
     finally:
         os.unlink(path)
+
+
+_MULTI_INDEX = re.compile(r'\(Array Int Int (?:Int|Real|Bool)\)')
+
+
+def _without_multi_index_arrays(smt):
+    """cvc5 1.0 does not read z3's multi-index arrays (Array Int Int Real).  Dropping every HYPOTHESIS that mentions a
+    symbol of such a sort leaves a weaker set of hypotheses: a proof from them is still a proof.  None when the goal
+    itself needs such a symbol."""
+    bad = set()
+    for m in re.finditer(r'\(declare-fun (\|[^|]+\||\S+) \(([^)]*(?:\([^)]*\)[^)]*)*)\) (.*)\)\s*$', smt, re.M):
+        if _MULTI_INDEX.search(m.group(2) + ' ' + m.group(3)):
+            bad.add(m.group(1))
+    if not bad:
+        return None
+    ctx = z3.Context()
+    asserts = list(z3.parse_smt2_string(smt, ctx=ctx))
+    if not asserts:
+        return None
+
+    def mentions(a):
+        t = a.sexpr()
+        return any((b if b.startswith('|') else ' %s' % b) in t or ('(%s ' % b) in t for b in bad)
+    goal = asserts[-1]
+    if mentions(goal):
+        return None
+    s2 = z3.Solver(ctx=ctx)
+    for a in asserts[:-1]:
+        if not mentions(a):
+            s2.add(a)
+    s2.add(goal)
+    return s2.to_smt2()
+
+
+def cvc5_check(smt, timeout_s, expect_sat):
+    """second opinion on z3 unknowns.  Only `unsat` answers are used (proofs); cvc5 needs the logic ALL."""
+    r = _run_cvc5(smt, timeout_s)
+    if r not in ('unsat', 'sat', 'unknown') and ('rror' in r):
+        from .smtnest import nest_multi_index
+        nested = nest_multi_index(smt)
+        if nested is not None:
+            r = _run_cvc5(nested, timeout_s)
+    if not expect_sat and r not in ('unsat', 'sat', 'unknown') and ('rror' in r):
+        try:
+            weaker = _without_multi_index_arrays(smt)
+        except Exception:
+            weaker = None
+        if weaker is not None:
+            r = _run_cvc5(weaker, timeout_s)
+            if r == 'sat':
+                r = 'unknown'       # sat on a subset of the hypotheses says nothing
     if r == 'unsat':
         return REFUTED if expect_sat else PROVED
     if r == 'sat':
@@ -292,12 +343,15 @@ def discharge(obls, timeout_s=10, procs=None, use_cvc5=True, log=None):
     # round 1
     jobs = []
     hints = load_hints()
+    cvc5_first = []
     for n, ob in enumerate(obls):
         if ob.expect_sat:
             jobs.append((n, FULL_STAGE, smts[n], budget(n), True, False))
         else:
             sid = hints.get(hint_key(ob))
-            if isinstance(sid, int) and 0 <= sid < len(STAGES):
+            if sid == -1 and use_cvc5:
+                cvc5_first.append(n)        # recorded as discharged by cvc5: ask cvc5 before spending z3's budgets
+            elif isinstance(sid, int) and 0 <= sid < len(STAGES):
                 jobs.append((n, sid, smts[n], budget(n), False, True))
             else:
                 jobs.append((n, 1, smts[n], min(2000, budget(n)), False, True))
@@ -308,6 +362,13 @@ def discharge(obls, timeout_s=10, procs=None, use_cvc5=True, log=None):
         info[n] = r
         if r[2] != UNKNOWN:
             verdict[n] = r
+    if cvc5_first:
+        from concurrent.futures import ThreadPoolExecutor
+        with ThreadPoolExecutor(max_workers=min(procs, len(cvc5_first))) as tp:
+            for r in tp.map(_check_cvc5, [("%d" % n, smts[n], min(timeout_s, 20), False) for n in cvc5_first]):
+                if r[1] == PROVED:
+                    verdict[int(r[0])] = (int(r[0]), -1, PROVED, r[2], None, 'cvc5')
+                    t_spent[int(r[0])] += r[2]
     if jobs:
         waves = (len(jobs) + procs - 1) // procs
         _run_jobs(jobs, procs, on1, lambda: False, wall_limit_s=60 + waves * (timeout_s + 5))
@@ -344,8 +405,8 @@ def discharge(obls, timeout_s=10, procs=None, use_cvc5=True, log=None):
                     verdict[n] = (n, -1, PROVED, r[2], None, 'cvc5')
     out = []
     for n, ob in enumerate(obls):
-        if n in verdict and verdict[n][2] == PROVED and not ob.expect_sat and verdict[n][1] >= 0:
-            NEW_HINTS[hint_key(ob)] = verdict[n][1]
+        if n in verdict and verdict[n][2] == PROVED and not ob.expect_sat:
+            NEW_HINTS[hint_key(ob)] = verdict[n][1]         # stage index, or -1 for cvc5
         r = verdict.get(n) or info.get(n) or (n, -1, UNKNOWN, 0.0, {'reason': 'not run'}, 'z3')
         out.append(dict(name=ob.name, kind=ob.kind, fn=ob.fn, lineno=ob.lineno, verdict=r[2] if n in verdict else UNKNOWN,
                         time=t_spent.get(n, r[3]), backend=r[5], info=r[4], trail=ob.trail, props=ob.props,
